@@ -203,4 +203,182 @@ example :
     catchUp (flatten s1.rrdp.snapshot) (chainOf s2.rrdp 1) = some (flatten s2.rrdp.snapshot) := by
   decide
 
+/-! ## The rsync tree -/
+
+/-- `rsync_equals_snapshot` — every complete run of `RsyncdStore::write` (the files of the
+snapshot saved in any order) on a directory where
+
+* there is no left-over `tmp-<serial>` directory (otherwise F-C11-4),
+* `current` and a non-empty `old` are not both present (otherwise F-C11-1),
+* the snapshot gives one content per relative path (otherwise the shared URIs of F-C10-1/2),
+
+succeeds, and afterwards `current` holds exactly the objects of the snapshot, `old` and the
+temporary directory are gone. -/
+theorem rsync_equals_snapshot (fs : RsyncFs) (base : Uri) (serial : Nat) (objs : Objs)
+    (log : List Sig) (ms : List RMut) (rest : List (Bool × List RMut))
+    (hm : matchLog RMut.sig (rsyncPlan fs base serial objs) log = some (ms, rest))
+    (hdone : planDone rest = true)
+    (hclean : fs.get? (.tmp serial) = none)
+    (hold : fs.get? .current = none ∨ fs.get? .old = none ∨ fs.get? .old = some [])
+    (hfun : FilesFunctional (rsyncFiles base objs)) :
+    ∃ fs' t, fs.applyAll ms = (fs', true) ∧ fs'.current = some t ∧
+      (∀ rel, t.get? rel = (expectedTree base objs).get? rel) ∧
+      fs'.get? .old = none ∧ fs'.get? (.tmp serial) = none := by
+  obtain ⟨ss, rfl, hsub, hall⟩ := rsync_complete_shape hm hdone
+  -- mkdir
+  have hmk : fs.apply (.mkdir (.tmp serial)) = some (fs.set (.tmp serial) []) := by
+    simp only [RsyncFs.apply, hclean]
+  have h1 : (fs.set (.tmp serial) []).get? (.tmp serial) = some [] := by
+    rw [RsyncFs.get?_set]; simp
+  -- saves
+  obtain ⟨fs2, t, happ, hget, hokt, hoth, _, hfiles⟩ :=
+    apply_saves (rsyncFiles base objs) hfun (.tmp serial) ss
+      (fun m hm => by
+        obtain ⟨p, hp, rfl⟩ := List.mem_map.mp (hsub m hm)
+        exact ⟨p, hp, rfl⟩)
+      _ [] h1 (fun rel r h => by simp [Tree.get?] at h)
+  have hoth' : ∀ n, n ≠ .tmp serial → fs2.get? n = fs.get? n := by
+    intro n hn
+    rw [hoth n hn, RsyncFs.get?_set]; simp [hn]
+  obtain ⟨fs5, htail, hcur, hold5, htmp5⟩ := rsync_tail_ok hget hoth' hold
+  refine ⟨fs5, t, ?_, hcur, ?_, hold5, htmp5⟩
+  · rw [List.append_assoc, List.singleton_append, applyAll_cons_some hmk,
+      RsyncFs.applyAll_append, happ]
+    exact htail
+  · intro rel
+    apply tree_eq_expected hokt
+    intro p hp
+    exact hfiles p hp (hall _ (List.mem_map.mpr ⟨p, hp, rfl⟩))
+
+example : FilesFunctional (rsyncFiles ⟨rsyncLower, ⟨"h", 0⟩, ⟨"m", 0⟩, [], true⟩
+    [(⟨rsyncLower, ⟨"h", 0⟩, ⟨"m", 0⟩, ["ca", "a.cer"], false⟩, ⟨1, 10⟩)]) := by
+  intro p hp q hq _
+  simp only [rsyncFiles, relPath, eqModule, CiName.eqIgnoreCase, List.filterMap_cons] at hp hq
+  simp at hp hq
+  rw [hp, hq]
+
+/-- `rsync_write_after_any_cut_partial` — start from a directory without `old` and without
+temporary directories and interrupt a write of serial `serial1` anywhere (`ms1` is any run of a
+prefix of its plan).  A later complete write for another serial succeeds and yields the
+snapshot, **unless** the interruption left both `current` and a non-empty `old` behind.
+
+The full statement ("an interrupted write never prevents later writes") is false: the
+exception happens for the cut between `rename(tmp → current)` and the removal of `old`
+(`rsync_cut_leaves_old`), and from then on *every* write fails
+(`old_left_behind_blocks_all_writes`, F-C11-1).  A later write for the *same* serial re-uses
+the left-over temporary directory (`rsync_stale_tmp_leaks`, F-C11-4). -/
+theorem rsync_write_after_any_cut_partial (fs : RsyncFs) (base : Uri) (serial1 serial2 : Nat)
+    (objs1 objs2 : Objs)
+    (hnotmp : ∀ n, fs.get? (.tmp n) = none)
+    (log1 : List Sig) (ms1 : List RMut) (rest1 : List (Bool × List RMut))
+    (hm1 : matchLog RMut.sig (rsyncPlan fs base serial1 objs1) log1 = some (ms1, rest1))
+    (hne : serial2 ≠ serial1)
+    (hwin : (fs.applyAll ms1).1.get? .current = none ∨ (fs.applyAll ms1).1.get? .old = none ∨
+      (fs.applyAll ms1).1.get? .old = some [])
+    (log2 : List Sig) (ms2 : List RMut) (rest2 : List (Bool × List RMut))
+    (hm2 : matchLog RMut.sig (rsyncPlan (fs.applyAll ms1).1 base serial2 objs2) log2 = some (ms2, rest2))
+    (hdone : planDone rest2 = true)
+    (hfun : FilesFunctional (rsyncFiles base objs2)) :
+    ∃ fs' t, (fs.applyAll ms1).1.applyAll ms2 = (fs', true) ∧ fs'.current = some t ∧
+      ∀ rel, t.get? rel = (expectedTree base objs2).get? rel := by
+  -- the interrupted write touches only `tmp-<serial1>`, `current` and `old`
+  have hkeep : (fs.applyAll ms1).1.get? (.tmp serial2) = none := by
+    rw [applyAll_other fs ms1 (.tmp serial2)]
+    · exact hnotmp serial2
+    · intro m hm
+      obtain ⟨ph, hph, hmem⟩ := matchLog_mem RMut.sig hm1 m hm
+      rw [rsyncPlan_eq] at hph
+      simp only [List.mem_cons, List.mem_nil_iff, or_false] at hph
+      rcases hph with rfl | rfl | rfl
+      · simp only [List.mem_singleton] at hmem
+        subst hmem
+        simp [RMut.touches, hne.symm]
+      · obtain ⟨p, _, rfl⟩ := List.mem_map.mp hmem
+        simp [RMut.touches, hne.symm]
+      · unfold rsyncTail at hmem
+        simp only [List.mem_append, List.mem_cons, List.mem_nil_iff, or_false] at hmem
+        rcases hmem with (hmem | hmem) | hmem
+        · split at hmem
+          · simp only [List.mem_singleton] at hmem; subst hmem; simp [RMut.touches]
+          · cases hmem
+        · subst hmem; simp [RMut.touches, hne.symm]
+        · split at hmem
+          · simp only [List.mem_singleton] at hmem; subst hmem; simp [RMut.touches]
+          · cases hmem
+  obtain ⟨fs', t, h1, h2, h3, _, _⟩ :=
+    rsync_equals_snapshot _ base serial2 objs2 log2 ms2 rest2 hm2 hdone hkeep hwin hfun
+  exact ⟨fs', t, h1, h2, h3⟩
+
+/-- F-C11-1, the window: the cut after `rename(tmp-2 → current)` and before the removal of
+`old` leaves `current` and a non-empty `old`. -/
+theorem rsync_cut_leaves_old :
+    let fs : RsyncFs := [(.current, [(["ca", "a.cer"], .clean ⟨1, 10⟩)])]
+    let base : Uri := ⟨rsyncLower, ⟨"h", 0⟩, ⟨"m", 0⟩, [], true⟩
+    let objs : Objs := [(⟨rsyncLower, ⟨"h", 0⟩, ⟨"m", 0⟩, ["ca", "a.cer"], false⟩, ⟨2, 10⟩)]
+    let log : List Sig := [⟨"create_dir_all", [.name "tmp-2"], []⟩,
+           ⟨"create", [.name "tmp-2", .name "ca", .name "a.cer"], []⟩,
+           ⟨"rename", [.name "current"], [.name "old"]⟩,
+           ⟨"rename", [.name "tmp-2"], [.name "current"]⟩]
+    (matchLog RMut.sig (rsyncPlan fs base 2 objs) log).map (fun r =>
+        (planDone r.2, (fs.applyAll r.1).2, ((fs.applyAll r.1).1.get? .current).isSome,
+          (fs.applyAll r.1).1.get? .old == some [(["ca", "a.cer"], .clean ⟨1, 10⟩)])) =
+      some (false, true, true, true) := by
+  decide
+
+/-- F-C11-1: once `current` and a non-empty `old` are both present, every complete run of
+every later write fails (at `rename(current → old)`), whatever is to be written. -/
+theorem old_left_behind_blocks_all_writes (fs : RsyncFs) (tc : Tree) (x : List String × Raw)
+    (xs : Tree) (hcur : fs.get? .current = some tc) (hold : fs.get? .old = some (x :: xs))
+    (base : Uri) (serial : Nat) (objs : Objs) (log : List Sig) (ms : List RMut)
+    (rest : List (Bool × List RMut))
+    (hm : matchLog RMut.sig (rsyncPlan fs base serial objs) log = some (ms, rest))
+    (hdone : planDone rest = true) :
+    (fs.applyAll ms).2 = false := by
+  obtain ⟨ss, rfl, hsub, _⟩ := rsync_complete_shape hm hdone
+  rw [RsyncFs.applyAll_append]
+  -- whatever mkdir and the saves do (they may even fail), `current` and `old` stay
+  have hpre := applyAll_other fs ([.mkdir (.tmp serial)] ++ ss)
+  have hmem : ∀ m ∈ [RMut.mkdir (.tmp serial)] ++ ss, ∀ n, n = .current ∨ n = .old →
+      m.touches n = false := by
+    intro m hm n hn
+    rw [List.mem_append] at hm
+    rcases hm with hm | hm
+    · simp only [List.mem_singleton] at hm; subst hm
+      rcases hn with rfl | rfl <;> simp [RMut.touches]
+    · obtain ⟨p, _, rfl⟩ := List.mem_map.mp (hsub m hm)
+      rcases hn with rfl | rfl <;> simp [RMut.touches]
+  have hc := hpre .current (fun m hm => hmem m hm _ (Or.inl rfl))
+  have ho := hpre .old (fun m hm => hmem m hm _ (Or.inr rfl))
+  generalize fs.applyAll ([RMut.mkdir (.tmp serial)] ++ ss) = r at hc ho
+  obtain ⟨fs2, ok⟩ := r
+  cases ok with
+  | false => rfl
+  | true =>
+    simp only at hc ho ⊢
+    unfold rsyncTail
+    simp only [hcur, Option.isSome_some, ↓reduceIte, List.cons_append, List.nil_append]
+    rw [applyAll_cons_none]
+    simp only [RsyncFs.apply, hc, hcur, ho, hold]
+
+/-- F-C11-4: a left-over `tmp-1` directory (from an interrupted write at serial 1 of an earlier
+session) is re-used by the next write for serial 1: the write succeeds, but `current` contains
+an object the snapshot does not have, and a shorter object written over a longer one is
+neither. -/
+theorem rsync_stale_tmp_leaks :
+    let fs : RsyncFs := [(.tmp 1, [(["ca", "a.cer"], .clean ⟨1, 10⟩), (["ca", "m.mft"], .clean ⟨4, 1500⟩)]),
+                         (.current, [(["ca", "m.mft"], .clean ⟨5, 9⟩)])]
+    let base : Uri := ⟨rsyncLower, ⟨"h", 0⟩, ⟨"m", 0⟩, [], true⟩
+    let objs : Objs := [(⟨rsyncLower, ⟨"h", 0⟩, ⟨"m", 0⟩, ["ca", "m.mft"], false⟩, ⟨5, 9⟩)]
+    let log : List Sig := [⟨"create_dir_all", [.name "tmp-1"], []⟩,
+           ⟨"create", [.name "tmp-1", .name "ca", .name "m.mft"], []⟩,
+           ⟨"rename", [.name "current"], [.name "old"]⟩,
+           ⟨"rename", [.name "tmp-1"], [.name "current"]⟩,
+           ⟨"remove_dir_all", [.name "old"], []⟩]
+    (matchLog RMut.sig (rsyncPlan fs base 1 objs) log).map (fun r =>
+        (planDone r.2, (fs.applyAll r.1).2,
+          (fs.applyAll r.1).1.current.bind (·.get? ["ca", "a.cer"]),
+          (fs.applyAll r.1).1.current.bind (·.get? ["ca", "m.mft"]))) =
+      some (true, true, some (.clean ⟨1, 10⟩), some .garbage) := by
+  decide
+
 end KM.Props.C11
